@@ -91,15 +91,16 @@ def c_build_graphs():
     inv = list(_clauses('k_out').values())
     here = 'task in hard_graph.nodes and task in soft_graph.nodes'
     hard_now = 'all(implies(d in done, edge(task, d) in hard_graph.edges) for d in Tasks)'
-    hard_all = 'all(implies(d in task.depends_on, edge(task, d) in hard_graph.edges) for d in Tasks)'
     soft_now = 'all(implies(d in done, edge(task, d) in soft_graph.edges) for d in Tasks)'
+    # each inner loop writes one graph only: what the other loop established about the other graph is kept by the frame (it is not restated, so that
+    # the two loops may stand in either order)
     fields = {'hard_graph.nodes': NODES, 'hard_graph.edges': EDGES, 'soft_graph.nodes': NODES, 'soft_graph.edges': EDGES}
     post = _clauses('len(collected)', H='result[0]', S='result[1]', seq='collected')
     return Contract(COMMONF, 'build_graphs', params={}, signals={},
                     ensures=[('C04-C14-' + name, text) for name, text in post.items()] + [('two-distinct-graphs', 'result[0] is not result[1]')],
                     loops={0: LoopSpec('for task in tasks', inv, vars=fields, ghost='k_out'),
                            1: LoopSpec('for dep in task.depends_on', inv + [here, hard_now], vars={'hard_graph.nodes': NODES, 'hard_graph.edges': EDGES}),
-                           2: LoopSpec('for dep in task.soft_depends_on', inv + [here, hard_all, soft_now], vars={'soft_graph.nodes': NODES, 'soft_graph.edges': EDGES})})
+                           2: LoopSpec('for dep in task.soft_depends_on', inv + [here, soft_now], vars={'soft_graph.nodes': NODES, 'soft_graph.edges': EDGES})})
 
 
 def check(I, scope, outcome):
